@@ -188,7 +188,12 @@ class Interp:
             g = cands[s['which'] % len(cands)]
             if n == 0:
                 return
-            ddf = lib(B + ['from_pandas'], dd.from_pandas, df, npartitions=1 + s['npartitions'] % 3, sort=False)
+            if s.get('in_memory'):
+                # partitions are in-memory frames (as after persist()/from_delayed): set_geometry on the collection must
+                # not change them for the source collection
+                ddf = dasktools.ddf_from_sizes(df, _sizes(n, [s['npartitions'], s['which'] + 1]))
+            else:
+                ddf = lib(B + ['from_pandas'], dd.from_pandas, df, npartitions=1 + s['npartitions'] % 3, sort=False)
             ddf2 = lib(B, ddf.set_geometry, g)
             nm = lib(B + ['ddf.geometry'], lambda: ddf2.geometry.name)
             if nm != g:
